@@ -113,7 +113,14 @@ class C16(Prop):
 
         # is the owo-colors defect still there?
         w = self._render(exe, ["adr owo - a1 - 1"])
-        self.owo_defect = core.run_side([drv, "spec"], w, "C16w")[0].startswith("MISMATCH")
+        reproduces = core.run_side([drv, "spec"], w, "C16w")[0].startswith("MISMATCH")
+        # the class is excluded only if the finding is listed in known_findings.txt (F16-1); an unlisted
+        # misrendering stays in the comparison and is reported as a violation
+        listed_f = any(k.get("id") == "F16-1" for k in core.load_known_findings("C16"))
+        self.owo_defect = reproduces and listed_f
+        if self.owo_defect:
+            print("KNOWN-FINDING: property=C16 id=F16-1 case=adr|owo|-|a1|-|1 owo-colors 4.0.0 renders bg + effect without fg as ESC[411m "
+                  "(missing ';'): the rendering of the converted style does not interpret to the style (third-party defect, adapter conforms)")
 
         # ---- (a) meaning tables, exhaustive ---------------------------------
         ask = ["adl %s" % lib for lib in LIBS]
